@@ -124,6 +124,18 @@ func poolScenarioH(cfg scenlib.PoolCfg, subs [][]jobSpec, closeAtEnd bool, preal
 						case "timeout0", "timeout1ns", "timeout2ns", "timeout-neg": // degenerate timeouts (a third of them is 0)
 							d := map[string]time.Duration{"timeout0": 0, "timeout1ns": 1, "timeout2ns": 2, "timeout-neg": -time.Millisecond}[js.via]
 							vsched.Event("sched", jid, scenlib.SchedErr(p.ScheduleWithTimeout(job, d)))
+						case "invoke-timeout0", "invoke-timeout": // the Invokable's blocking entry point, also with "do not wait"
+							d := 9 * time.Millisecond
+							if js.via == "invoke-timeout0" {
+								d = 0
+							}
+							inv := worker.NewDefaultInvokable[int](p, func(v int) { job() })
+							vsched.Event("sched", jid, scenlib.SchedErr(inv.InvokeWithTimeout(jid, d)))
+						case "invoke-swap": // the callee is replaced right after the invocation was handed over: the job runs the callee it was invoked with
+							inv := worker.NewDefaultInvokable[int](p, func(v int) { job() })
+							inv.Invoke(jid)
+							inv.SetCallee(func(v int) { vsched.Event("foreign-callee", v) })
+							vsched.Event("sched", jid, "invoked")
 						case "invoke":
 							inv := worker.NewDefaultInvokable[int](p, func(v int) { job() })
 							if jid%2 == 0 { // the same invokable assembled through its setters
@@ -189,6 +201,9 @@ func poolScenarioH(cfg scenlib.PoolCfg, subs [][]jobSpec, closeAtEnd bool, preal
 						fs = append(fs, e1.Fail("C09|"+fam+"|panic-handler-count", "panicking job %d ran %d time(s) but the panic handler saw it %d time(s)", j.id, runs, n))
 					}
 				}
+			}
+			if n := e1.Count(r, "foreign-callee"); n > 0 {
+				fs = append(fs, e1.Fail("C09|"+fam+"|wrong-callee", "an invocation handed over before SetCallee ran the callee installed afterwards (%d time(s)) instead of the one it was invoked with", n))
 			}
 			if reentrantHandler {
 				acc, runs := e1.Count(r, "sched", 900, "accepted"), e1.Count(r, "start", 900)
@@ -287,6 +302,12 @@ func scenarios(tier string) []*vsched.Scenario {
 		// the job accepted on the retry runs like one accepted at once
 		out = append(out, poolScenario(scenlib.PoolCfg{Cap: 1, Buf: 0, Max: 1, StandBy: 0, Batch: 1}, [][]jobSpec{{js("timed", S), js("panic", S), js("plain", T)}}, false, 1, false),
 			poolScenario(scenlib.PoolCfg{Cap: 1, Buf: 0, Max: 1, StandBy: 0, Batch: 1}, [][]jobSpec{{js("timed", S), js("timed-panic", S)}, {js("plain", T)}}, false, 1, true))
+		// the Invokable's other entry points on a busy pool: InvokeWithTimeout with a real and with a zero timeout on a full
+		// queue; SetCallee right after Invoke while the invocation is still queued
+		I0, IT, IS := "invoke-timeout0", "invoke-timeout", "invoke-swap"
+		out = append(out,
+			poolScenario(scenlib.PoolCfg{Cap: 1, Buf: 0, Max: 1, StandBy: 1, Batch: 1}, [][]jobSpec{{js("timed", S), js("plain", S), js("plain", I0), js("plain", IT)}}, false, 1, false),
+			poolScenario(scenlib.PoolCfg{Cap: 1, Buf: 1, Max: 1, StandBy: 1, Batch: 1}, [][]jobSpec{{js("timed", S), js("plain", IS), js("plain", S)}}, false, 1, false))
 		// a panic handler that schedules a follow-up job on its own pool
 		out = append(out,
 			poolScenarioH(scenlib.PoolCfg{Cap: 2, Buf: 1, Max: 2, StandBy: 2, Batch: 1}, [][]jobSpec{{js("panic", S)}}, false, 0, 0, false, true)) // (bound 0: with two stand-by workers and their timers one deviation already takes minutes)
